@@ -68,6 +68,30 @@ CLAIMED.update({
     technique="contract-based deductive verification: ghost timer handles, z3"),
 })
 
+CLAIMED.update({
+ "C14": dict(category="proof",
+    text="The retry budget is proved function by function: _Transport.can_reconnect/next_delay/reset/failed against "
+         "budget spec clauses (first attempt undelayed, never more than max_retry_delay for any jitter draw, RuntimeError "
+         "iff exhausted); Component._can_reconnect and the transport_check closure over an unbounded family of transport "
+         "records (loop invariants): next transport in cyclic order that may reconnect, start() result rejected iff none "
+         "can; _connect_once advances the attempt counter exactly once, on_join restarts the budget.",
+    note="Trusted: z3, pyvc, txaio as_future/add_callbacks/sleep (the asynchronous composition of the reconnect loop is "
+         "assumed, not proved), itertools.cycle as k mod n, random.normalvariate arbitrary, floats as reals. Not covered: "
+         "exactly-once completion of the start() future across callbacks (history property over txaio), listener bubbling "
+         "(ObservableMixin.fire), stop() racing with a scheduled transport_check.",
+    technique="contract-based deductive verification: AST->VC, symbolic record heap, loop invariants, z3"),
+ "C19": dict(category="proof",
+    text="compute_totp/check_totp are proved equal to an RFC 4226/6238 spec (dynamic truncation arithmetic, step counter, "
+         "window -1..+1) over uninterpreted HMAC-SHA1/base32; compute_wcs, derive_key, pbkdf2, WAMP-CRA on_challenge "
+         "(salted and unsalted) equal their RFC compositions (argument order, encodings, key stretching only with a salt); "
+         "AuthScram.on_welcome returns None iff the alleged server signature equals HMAC(HMAC(SaltedPassword,'Server Key'), "
+         "AuthMessage); util.xor is byte-wise XOR with a length check (loop invariant).",
+    note="The primitives (HMAC, SHA, PBKDF2, Argon2, Ed25519, base32/64) are uninterpreted: their bindings are exercised by "
+         "the pinned RFC test vectors, their cryptographic strength is an assumption. Not covered: AuthScram.on_challenge "
+         "(client proof string formatting), cryptosign signing chain.",
+    technique="contract-based deductive verification over uninterpreted cryptographic primitives, z3"),
+})
+
 PENDING_REASON = "contracts for this property are not yet discharged in this snapshot of /verif (build in progress, see DESIGN.md section 8); nothing is claimed"
 
 def main():
